@@ -352,3 +352,72 @@ func H08c_twin() {
 		vAssert(false, "H08c_twin.reach: reachable")
 	}
 }
+
+// H06c: payload substitution. A payload P is already in the payload store (an admitted transaction carried it).
+// A second, otherwise valid transaction declares hash(P) and is offered with P, with another payload, or without
+// payload: offered bytes that do not hash to the declared hash are refused - the transaction is not admitted,
+// storage is unchanged, nobody is notified - also when the declared hash is one the node already knows; and what
+// subscribers and readers get for hash(P) is always P.
+func H06c() {
+	kv := newHKV()
+	ctx := context.Background()
+	s := hNewState(kv, 2, func(Transaction) bool { return true })
+	rec, recPl := &hRecorder{}, &hRecorder{}
+	_, err := s.Notifier("txsub", rec.receive, WithPersistency(kv), WithSelectionFilter(func(e Event) bool { return e.Type == TransactionEventType }))
+	vAssert(err == nil, "H06c.notifier: cannot register notifier")
+	_, err = s.Notifier("plsub", recPl.receive, WithPersistency(kv), WithSelectionFilter(func(e Event) bool { return e.Type == PayloadEventType }))
+	vAssert(err == nil, "H06c.notifier: cannot register notifier")
+
+	p := []byte{7}
+	declared := hash.SHA256Sum(p)
+	root := hNewTx(vRef(1), 0, declared, nil)
+	vAssert(s.Add(ctx, root, p) == nil, "H06c.root_admitted: valid root with payload refused")
+	child := hNewTx(vRef(1), 1, declared, []hash.SHA256Hash{root.ref})
+	vAssume(child.ref != root.ref)
+
+	var offered []byte
+	vTag("offered")
+	mode := vChoice(3)
+	switch mode {
+	case 0:
+		offered = []byte{7}
+	case 1:
+		// (concrete: SHA-256 of symbolic bytes is an uninterpreted function in the engine, which could "collide")
+		vTag("other_payload")
+		offered = []byte{byte(8 + vChoice(2)*120)}
+	}
+	before := kv.snapshot()
+	nTx, nPl := len(rec.events), len(recPl.events)
+	err = s.Add(ctx, child, offered)
+	present, _ := s.IsPresent(ctx, child.ref)
+	switch mode {
+	case 0, 2:
+		vCover("consistent-offer")
+		vAssert(err == nil && present, "H06c.valid_admitted: a valid transaction with a known payload hash was refused")
+	case 1:
+		vCover("substituted-payload")
+		vAssert(err != nil, "H06c.substitute_refused: a payload that does not hash to the declared (already known) payload hash was accepted")
+		vAssert(!present, "H06c.substitute_not_admitted: a transaction offered with a substituted payload was admitted")
+		vAssert(hKVSameState(before, kv.snapshot()), "H06c.substitute_leaves_no_trace: refused transaction changed storage")
+		vAssert(len(rec.events) == nTx && len(recPl.events) == nPl, "H06c.substitute_notifies_noone: refused transaction notified a subscriber")
+	}
+	for _, e := range recPl.events {
+		vAssert(len(e.Payload) == 1 && e.Payload[0] == 7, "H06c.subscribers_get_declared_payload: a payload event carries bytes that do not hash to the transaction's payload hash")
+	}
+	got, rerr := s.ReadPayload(ctx, declared)
+	vAssert(rerr == nil && len(got) == 1 && got[0] == 7, "H06c.stored_payload_intact: the stored payload for the hash changed")
+}
+
+func H06c_twin() {
+	kv := newHKV()
+	ctx := context.Background()
+	s := hNewState(kv, 2, func(Transaction) bool { return true })
+	p := []byte{7}
+	root := hNewTx(vRef(1), 0, hash.SHA256Sum(p), nil)
+	if s.Add(ctx, root, p) == nil {
+		child := hNewTx(vRef(1), 1, hash.SHA256Sum(p), []hash.SHA256Hash{root.ref})
+		if child.ref != root.ref && s.Add(ctx, child, []byte{8}) != nil {
+			vAssert(false, "H06c_twin.reach: reachable")
+		}
+	}
+}
